@@ -27,6 +27,9 @@ func init() {
 		Trusted:     []string{"go/packages+go/ssa (x/tools v0.29.0)", "go-datastore Put/Delete/Commit are durable when they return nil", "ipfs keystore Put/Get semantics", "go-datastore keytransform/namespace/sync wrappers and MapDatastore perform each write before returning (read from their source, v0.9.1)"},
 		Assumptions: []string{"one secret store instance per datastore; effects identified by the namespace constants of pkg/secretstore"},
 		Floors:      map[string]int{"D1": 2, "D2": 2, "D3": 1, "D4": 2, "D5": 6, "D6": 6, "D7": 2, "D8": 5, "D9": 1},
+		Borrows: []Borrow{
+			{From: "C11", Rules: []string{"D6"}, Why: "a named key is looked up, generated on a miss and stored in one locked section: otherwise two first uses both generate, the second store overwrites the first, and one caller goes on using a key that is not the one found in the store after a restart"},
+		},
 		Run:         runC10,
 	})
 }
